@@ -12,6 +12,13 @@ COMMON_NOTE = (
 )
 
 CHECKS = {
+    "C10": dict(
+        technique="explicit-state breadth-first search over operation histories (listings through 4 protocols, directory mutations, virtual-clock advances) on the implementation, checked step by step against an explicit cache model with a caching-off twin server as reference",
+        text="All histories over the operation menu up to the depth bound (states de-duplicated on directory contents, unpickled cache entries, capped cache age and model snapshot) are replayed on a fresh world under a virtual clock; "
+             "every listing must equal what the cache model predicts: the twin's fresh listing on a miss (no cache, or age >= lifetime), the listing recorded when the entry was written on a hit, whichever protocols wrote and read it; "
+             "a hit must not touch the cache file, a miss must rewrite it; lifetime 0 always reflects the current directory.",
+        design_ref="DESIGN.md 3/C10",
+    ),
     "C12": dict(
         technique="exhaustive fault enumeration (fault kind x position x singles and pairs x protocols x directory handlers) on the implementation, differential against the fault-free listing",
         text="Every single and every pair of unservable entries (real dangling and self-referential links, FIFOs, UNIX sockets, names containing '..', directories whose children the filter rejects; seam-injected vanished entries and EACCES) "
